@@ -2,7 +2,7 @@
 C17, C18. Data are integer-valued, so every floating-point operation is exact and results are compared exactly."""
 import numpy as np
 
-from lib import Buf, MASK_NONE, MASK_GENERIC
+from lib import Buf, MASK_NONE, MASK_GENERIC, ro
 
 # name, layout, kind, how it is called, constructor of the table it needs, complex numbers consumed per loop step
 PW_KERNELS = [
@@ -98,11 +98,12 @@ def run_pointwise(L, tables, kern, m, mask, a, b, r0, alias, off=0):
         R.f64[:] = to_layout(layout, r0)
     a0, b0 = A.snapshot(), B.snapshot()
     fp0 = L.fpenv()
-    if how == "simple":
-        L.fn(name, "v wppp")(m, R.addr, A.addr, B.addr)
-    else:
-        t = tables.get(ctor, m, mask if how == "dispatch" else MASK_NONE)
-        L.fn(name, "v pppp")(t, R.addr, A.addr, B.addr)
+    with ro(*[x for x in (A, B) if x is not R]):
+        if how == "simple":
+            L.fn(name, "v wppp")(m, R.addr, A.addr, B.addr)
+        else:
+            t = tables.get(ctor, m, mask if how == "dispatch" else MASK_NONE)
+            L.fn(name, "v pppp")(t, R.addr, A.addr, B.addr)
     why = L.fpenv_check(fp0)
     if why:
         return None, why
